@@ -67,9 +67,9 @@ type c10Result struct {
 }
 
 const (
-	compileBound = 10 * time.Second
+	compileBound = 30 * time.Second
 	matchBound   = 5 * time.Second
-	caseWatchdog = 30 * time.Second
+	caseWatchdog = 90 * time.Second
 )
 
 func allowedMatchErr(err error) bool {
